@@ -742,6 +742,7 @@ func genRelayPlan(seed uint64, tier string, focus string) *Plan {
 	}
 	var learned []string
 	var tcpRouted []string
+	var hang []Op
 	burst := g.chance(45)
 	for i := 0; i < o.nMsgs; i++ {
 		if o.responses && (focus == "C02" && g.chance(60) || focus != "C02" && g.chance(25)) {
@@ -786,6 +787,17 @@ func genRelayPlan(seed uint64, tier string, focus string) *Plan {
 				}
 			}
 		}
+		if op.Proto == "tcp" && op.Conn != "" {
+			if g.chance(10) {
+				// blank-line keep-alives ahead of the message on the stream (one CRLF, or the double CRLF "ping")
+				op.S["ka"] = g.pick("\r\n", "\r\n\r\n", "\r\n\r\n\r\n")
+			}
+			if g.chance(6) {
+				// the client hangs up after this message; whatever the proxy keeps for the connection goes with it,
+				// and nothing else
+				hang = append(hang, Op{Kind: "hangup", ID: g.nextID(), Conn: op.Conn})
+			}
+		}
 		if g.chance(40) {
 			op.S["answer"] = g.pick("200", "180,200", "100,200", "404", "183")
 			if g.chance(12) {
@@ -796,10 +808,12 @@ func genRelayPlan(seed uint64, tier string, focus string) *Plan {
 				op.I["answerLateS"] = g.rng(61, 200)
 			}
 		}
-		if burst && g.chance(60) && op.S["answer"] == "" {
+		if burst && g.chance(60) && op.S["answer"] == "" && len(hang) == 0 {
 			op.Settle = false // processed concurrently with what follows
 		}
 		p.Ops = append(p.Ops, op)
+		p.Ops = append(p.Ops, hang...)
+		hang = nil
 	}
 	if len(p.Ops) > 0 {
 		p.Ops[len(p.Ops)-1].Settle = true
@@ -904,6 +918,14 @@ func execRelay(t *testing.T, p *Plan) *Result {
 					st.judgeBurst(pending)
 					pending = nil
 				}
+			case "hangup":
+				if c := w.conns[op.Conn]; c != nil && !c.Closed() && len(pending) == 0 {
+					c.Close()
+					w.stat("probe:client-hung-up")
+					if !w.K.Settle(10 * time.Second) {
+						break
+					}
+				}
 			case "keepalive":
 				// a NAT keep-alive: a datagram of nothing but CRLF. Nothing is owed for it (anything emitted for it is
 				// unattributable), and it must leave no trace in what follows.
@@ -985,6 +1007,16 @@ func (st *relayState) inject(op *Op) bool {
 	}
 	op.I["srcPort"] = c.Local.Port
 	st.connOf[op.ID] = c.ID
+	if ka := op.S["ka"]; ka != "" {
+		if st.batch == nil {
+			st.batch = map[*simnet.TCPEnd][]byte{}
+		}
+		if _, ok := st.batch[c]; !ok {
+			st.batchOrder = append(st.batchOrder, c)
+		}
+		st.batch[c] = append(st.batch[c], ka...)
+		st.w.stat("probe:tcp-keepalive-before-message")
+	}
 	if len(op.Cuts) > 0 {
 		c.WriteCuts(op.Data, op.Cuts)
 		return true
@@ -1276,6 +1308,9 @@ func (st *relayState) judge(op *Op) {
 	// unattributable emissions are judged once, by whoever sees them first
 	for _, e := range w.decodeEmissions(0) {
 		if e.ID == "" || e.Err != nil {
+			if len(strings.Trim(string(e.E.Data), "\r\n")) == 0 {
+				continue // blank lines only (a keep-alive answer on a stream): not a relayed message
+			}
 			key := fmt.Sprintf("unattrib-%d", e.E.Seq)
 			if w.Stats[key] == 0 {
 				w.Stats[key] = 1
